@@ -27,6 +27,8 @@ def cells(tier, seed):
                 if pos == "batch" and not batch:
                     continue
                 for debug in (True,) if tier == "quick" else (True, False):
+                    if pos == "int" and not debug:
+                        continue  # settings.debug(False) switches the library's own python-int range validation off on purpose
                     out.append({"id": f"index/{name}/b{'x'.join(map(str, batch)) or '-'}/{pos}/d{int(debug)}",
                                 "params": {"group": "index", "builder": name, "n": 2, "batch": list(batch), "pos": pos, "debug": debug}})
     for name in SHAPE_BUILDERS:
